@@ -177,6 +177,7 @@ func Start(ds DataSource, queuedRequests chan func(), Npresamp int, Nsamples int
 // This will be a long-running goroutine, as long as a source is active.
 func CoreLoop(ds DataSource, queuedRequests chan func()) {
 	defer ds.RunDoneDeactivate()
+	defer vrecover("CoreLoop")
 	nextBlock := ds.getNextBlock()
 
 	for {
